@@ -104,6 +104,7 @@ def synthetic(run, ntables, per_table):
     rng = run.rng
     exc = {}
     allframes = []
+    tot = None
     for ti in range(ntables):
         tb = gen_types.Table(rng, pbound=0.3)
         boxes = fl.boxes_of(tb.bt)
@@ -132,7 +133,10 @@ def synthetic(run, ntables, per_table):
                     fr["where"] = {"table": ti, "lang": tb.lang}
                     frames.append(fr)
         allframes += frames
-    tot = eval_frames(run, allframes, "tables", origin={"stream": "tables"})
+        if (ti + 1) % 40 == 0 or ti + 1 == ntables:
+            st = eval_frames(run, allframes, "tables", origin={"stream": "tables"})
+            tot = st if tot is None else {k2: tot[k2] + st[k2] for k2 in st}
+            allframes = []
     run.cov["synthetic"] = dict(tot, tables=ntables, top_level_exceptions=exc)
     run.log("stream tables: %d tables, %d frames, %d requests, %d exact differ, %d answers rejected, %d returned types judged; exceptions %s"
             % (ntables, tot["frames"], tot["requests"], tot["exact_diffs"], tot["rejected"], tot["returned_types"], exc))
@@ -310,8 +314,8 @@ def check(run):
         run.assumptions.append("the tree implements the repaired find_irrelevant_type; switch Heph.Find.Variant.current to "
                                ".repaired")
     witnesses(run)
-    synthetic(run, 30 if quick else 1500, 40 if quick else 60)
-    generator_stream(run, 12 if quick else 240)
+    synthetic(run, 30 if quick else 600, 40 if quick else 60)
+    generator_stream(run, 12 if quick else 160)
     if not proofs_ok and not run.violations:
         run.violation({"kind": "broken-proof", "obligations": run.broken}, signature="proof", no_input=True)
 
